@@ -46,6 +46,10 @@ func c06ufS(tag string, args ...interface{}) *string {
 	if vx.UFBool(tag+"_null", args...) {
 		return nil
 	}
+	// result type "pstr": the user function may hand back its argument instead of a new string
+	if p, ok := args[0].(*string); ok && p != nil && strings.HasSuffix(tag, "_pstr") && vx.UFBool(tag+"_same", args...) {
+		return p
+	}
 	s := string([]byte{vx.UFByte(tag+"_byte", args...)})
 	return &s
 }
@@ -402,5 +406,81 @@ func VX_C06_apply() {
 		vx.Check(s2.Err == nil && len(s2.ColumnNames()) == len(order)+1 && s2.ColumnNames()[len(order)] == "sib2", "second sibling has its own new column")
 		vxCheckFrame(r, order, ocols, ix, "parent of the siblings")
 	}
+	vx.Reach("end")
+}
+
+// VX_C06_passthru: a user function func(*string) *string (or with two arguments) may return one
+// of its arguments; which rows get the argument back is decided by an uninterpreted predicate.
+// Cells are concrete and pairwise different, so a cell showing another row's value is visible.
+func VX_C06_passthru() {
+	P := 4
+	sc := vxCol{typ: "string", s: []string{"p", "q", "", "r"}, null: []bool{false, false, true, false}}
+	ec := vxCol{typ: "enum", s: []string{"b", "c", "", "a"}, null: []bool{false, false, true, false}}
+	tc := vxCol{typ: "string", s: []string{"w", "x", "y", "z"}, null: make([]bool, P)}
+	bc := vxMakeCol("int", P, 0)
+	ix := []uint32{3, 1, 0, 2}
+	f := vxFrame([]string{"s", "e", "t", "b"}, []vxCol{sc, ec, tc, bc}, ix)
+	src := vx.ParamStr("src")
+	srcCol := sc
+	if src == "e" {
+		srcCol = ec
+	}
+	two := vx.ParamStr("args") == "2"
+	// reference: the destination cell per physical row
+	want := vxCol{typ: "string", s: make([]string, P), null: make([]bool, P), zn: make([]bool, P)}
+	threshold := vx.Int()
+	selected := func(p int) bool { return vx.ParamStr("mode") != "filtered" || bc.i[p] > threshold }
+	pick := func(x, y *string) *string {
+		switch {
+		case vx.UFBool("pt_first", x, y):
+			return x
+		case two && vx.UFBool("pt_second", x, y):
+			return y
+		}
+		return nil
+	}
+	for _, p := range ix {
+		if !vxBoolConc(selected(int(p))) {
+			want.null[p], want.zn[p] = true, true
+			continue
+		}
+		x := c06get(srcCol, int(p)).ptr()
+		y := c06get(tc, int(p)).ptr()
+		if !two {
+			y = nil
+		}
+		r := pick(x, y)
+		if r == nil {
+			want.null[p] = true
+		} else {
+			want.s[p] = *r
+		}
+	}
+	in := Instruction{Fn: func(x *string) *string { return pick(x, nil) }, DstCol: "z", SrcCol1: src}
+	if two {
+		in = Instruction{Fn: func(x, y *string) *string { return pick(x, y) }, DstCol: "z", SrcCol1: src, SrcCol2: "t"}
+		if src == "e" {
+			in.SrcCol2 = "e" // two-argument functions need both sources of one type
+		}
+	}
+	if two && src == "e" {
+		for _, p := range ix {
+			if vxBoolConc(selected(int(p))) {
+				x := c06get(ec, int(p)).ptr()
+				r := pick(x, x)
+				want.null[p] = r == nil
+				if r != nil {
+					want.s[p] = *r
+				}
+			}
+		}
+	}
+	var r QFrame
+	if vx.ParamStr("mode") == "filtered" {
+		r = f.FilteredApply(Filter{Column: "b", Comparator: ">", Arg: threshold}, in)
+	} else {
+		r = f.Apply(in)
+	}
+	vxCheckFrame(r, []string{"s", "e", "t", "b", "z"}, []vxCol{sc, ec, tc, bc, want}, ix, "pass-through function")
 	vx.Reach("end")
 }
